@@ -1248,6 +1248,7 @@ determine_type() const {
 
     case '%':
     case '|':
+    case '^':
     case '&':
     case LSHIFT:
     case RSHIFT:
